@@ -152,6 +152,15 @@ Definition slice_array {A} (content : list A) (first second : Z) : outcome (list
   let rs := slice_rel_second len second in
   slice_loop (Z.to_nat (rs - rf)) rf content.
 
+(* the same function with the trip count capped at len+1 (an access must have
+   failed by then): identical results (BoundsProofs.slice_array_exec_eq), but
+   computable when the bounds are near the int64 limits *)
+Definition slice_array_exec {A} (content : list A) (first second : Z) : outcome (list A) :=
+  let len := Z.of_nat (length content) in
+  let rf := slice_rel_first len first in
+  let rs := slice_rel_second len second in
+  slice_loop (Z.to_nat (Z.min (rs - rf) (len + 1))) rf content.
+
 (* exact complement of the panic condition *)
 Definition slice_guard (len first second : Z) : Prop :=
   (0 <= slice_rel_first len first \/ slice_rel_second len second <= slice_rel_first len first)%Z.
@@ -442,7 +451,7 @@ Definition show_outcome {A} (show : A -> str) (o : outcome A) : str :=
 Definition c_slice (inp : Z * (Z * Z)) : str :=
   let '(len, (f, s)) := inp in
   show_outcome (fun xs => join_with 44 (map dec_of_Z xs))
-    (slice_array (map Z.of_nat (seq 0 (Z.to_nat len))) f s).
+    (slice_array_exec (map Z.of_nat (seq 0 (Z.to_nat len))) f s).
 
 (* `.[index]` on [0,...,len-1] (nulls shown as -1), with the new length *)
 Definition c_index (inp : Z * Z) : str :=
